@@ -28,7 +28,7 @@ BUILD = os.path.join(VERIF, "build")
 NCPU = min(16, os.cpu_count() or 4)
 
 CXX = "g++"
-CXXFLAGS = ["-std=c++17", "-O1", "-g", "-fsanitize=address,undefined",
+CXXFLAGS = ["-std=c++17", "-g", "-fsanitize=address,undefined",
             "-fno-sanitize-recover=undefined", "-fno-omit-frame-pointer",
             "-DNITRO_VERIF", "-I" + os.path.join(REPO, "include")]
 LDFLAGS = ["-fsanitize=address,undefined", "-pthread", "-ldl"]
@@ -51,7 +51,7 @@ ENGINES = {
     "dlsim": dict(src=["sim/dlsim/dlsim.cpp"], nitro_src=["src/env/get.cpp"],
                   ld=["-Wl,--wrap=dlopen,--wrap=dlsym,--wrap=dlclose,--wrap=dlerror"],
                   variants=[("", [])], probes=[]),
-    "logsim": dict(src=["sim/logsim/logsim.cpp"], nitro_src=[],
+    "logsim": dict(src=["sim/logsim/logsim.cpp"], nitro_src=[], opt="-O0",
                    ld=["-Wl,--wrap=pthread_mutex_lock,--wrap=pthread_mutex_unlock,--wrap=pthread_mutex_trylock"],
                    variants=[(s, ["-DNITRO_LOG_MIN_SEVERITY=" + s, "-DLOGSIM_MIN=%d" % i])
                              for i, s in enumerate(SEVS)], probes=[]),
@@ -118,7 +118,7 @@ def build_core():
     for old in glob.glob(os.path.join(BUILD, "core", "*")):
         if old != d:
             shutil.rmtree(old, ignore_errors=True)
-    cmd = [CXX] + CXXFLAGS + ["-c", srcs[0], "-o", obj + ".tmp.o"]
+    cmd = [CXX] + CXXFLAGS + ["-O1", "-c", srcs[0], "-o", obj + ".tmp.o"]
     p = subprocess.Popen(cmd, stdout=subprocess.PIPE, stderr=subprocess.STDOUT, text=True)
     return obj, p
 
@@ -152,13 +152,13 @@ def build_engine(engine):
         probe_procs.append((macro, subprocess.Popen(cmd, stdout=subprocess.DEVNULL, stderr=subprocess.DEVNULL)))
     for macro, p in probe_procs:
         probes[macro] = 1 if p.wait() == 0 else 0
-    defs = ["-D%s=%d" % (m, v) for m, v in probes.items()]
+    defs = ["-D%s=%d" % (m, v) for m, v in probes.items()] + [spec.get("opt", "-O1")]
     procs = []
     nitro_objs = []
     for i, ns in enumerate(spec["nitro_src"]):
         obj = os.path.join(d, "nitro_%d.o" % i)
         nitro_objs.append(obj)
-        cmd = [CXX] + CXXFLAGS + ["-c", os.path.join(REPO, ns), "-o", obj]
+        cmd = [CXX] + CXXFLAGS + ["-O1", "-c", os.path.join(REPO, ns), "-o", obj]
         procs.append((ns, subprocess.Popen(cmd, stdout=subprocess.PIPE, stderr=subprocess.STDOUT, text=True)))
     var_objs = []
     for vname, vflags in spec["variants"]:
@@ -205,6 +205,10 @@ def _words(text, maxw):
 
 def classify_stderr(err, rc):
     """Must stay identical to Tester::classify in sim/core/sim_main.cpp."""
+    if "SIM-DEADLOCK" in err:
+        return "deadlock"
+    if "SIM-STEPBUDGET" in err:
+        return "step-budget"
     i = err.find("runtime error: ")
     if i >= 0:
         return "ubsan:" + _words(err[i + 15:], 4)
@@ -259,7 +263,7 @@ class Batch:
         self.deaths = 0
         self.abandoned = []
         self.hashfiles = []
-        self.outdir = os.path.join(VERIF, "replays", prop)
+        self.outdir = os.path.join(os.environ.get("VERIF_REPLAY_DIR", os.path.join(VERIF, "replays")), prop)
         self.scratch = os.path.join(BUILD, "scratch", prop + "-" + tier)
         self.deadline = 0
 
@@ -539,8 +543,9 @@ def run_check(prop, tier, seed):
         },
         "assumptions": ASSUMPTIONS[engine],
     }
-    os.makedirs(os.path.join(VERIF, "evidence"), exist_ok=True)
-    with open(os.path.join(VERIF, "evidence", prop + ".json"), "w") as f:
+    evdir = os.environ.get("VERIF_EVIDENCE_DIR", os.path.join(VERIF, "evidence"))
+    os.makedirs(evdir, exist_ok=True)
+    with open(os.path.join(evdir, prop + ".json"), "w") as f:
         json.dump(evidence, f, indent=1)
         f.write("\n")
     shutil.rmtree(batch.scratch, ignore_errors=True)
